@@ -89,11 +89,17 @@ static void gen_input(mzd_t *M) {
         if ((sel >> t) & 1) for (int j = 0; j < W; ++j) mzd_row(M, i)[j] ^= mzd_row(M, t)[j];
     }
   }
+#ifdef ZTAIL /* trailing all-zero rows (after the concrete last non-zero row) */
+  for (int i = NR - ZTAIL; i < NR; ++i) for (int j = 0; j < W; ++j) mzd_row(M, i)[j] = 0;
+#define NRS (NR - ZTAIL)
+#else
+#define NRS NR
+#endif
 #ifdef LASTCONC /* keep the last row where it is: it is fully concrete and non-zero, so mzd_first_zero_row
                    (first thing the PLE-based routes do) returns a concrete row count */
-  for (int i = NR - 2; i > 0; --i) {
+  for (int i = NRS - 2; i > 0; --i) {
 #else
-  for (int i = NR - 1; i > 0; --i) { /* concrete Fisher-Yates */
+  for (int i = NRS - 1; i > 0; --i) { /* concrete Fisher-Yates */
 #endif
     int t = (int)(vlcg_next() % (word)(i + 1));
     mzd_row_swap(M, i, t);
@@ -101,10 +107,18 @@ static void gen_input(mzd_t *M) {
 }
 
 /* density heuristic of the hybrid replaced by an arbitrary verdict (DENSTUB queries): the result must
- * be right for every switching threshold, so "any value" over-approximates every threshold */
+ * be right for every switching threshold: every verdict sequence is enumerated */
+#ifndef DENSSEQ
+#define DENSSEQ 0
+#endif
+static int dens_calls;
 double verif_density_stub(mzd_t const *A, wi_t res, rci_t r, rci_t c) {
   (void)A; (void)res; (void)r; (void)c;
-  return vin_range(0, 1) ? 1.0 : 0.0;
+  /* the i-th density query answers "dense" iff bit i of DENSSEQ is set: the plan enumerates the verdict
+   * sequences (a symbolic verdict merges two concrete control flows and symex diverges, measured) */
+  int v = (DENSSEQ >> dens_calls) & 1;
+  dens_calls++;
+  return v ? 1.0 : 0.0;
 }
 
 void harness(void) {
